@@ -2239,6 +2239,15 @@ func (cx *Ctx) constTable(g *ssa.Global) ([]tableEntry, bool) {
 // the plain forms: Get/Has/Delete(key), Set(key, value), iterator(store, prefix).
 func (w *Walker) absoluteStoreKey(ev *Event, ci ssa.CallInstruction, kind string, fr *Frame) {
 	c := ci.Common()
+	// a queued write (batch.go): key and value are the queueing call's arguments
+	if q := w.cx.queuerAt(ci); q != nil && q.keyIdx < len(ev.Args) {
+		args := []*Term{ev.Args[q.keyIdx]}
+		if q.valIdx >= 0 && q.valIdx < len(ev.Args) {
+			args = append(args, ev.Args[q.valIdx])
+		}
+		ev.Args = args
+		return
+	}
 	pkg, name := calleeName(c)
 	var store ssa.Value
 	args := ev.Args
